@@ -101,6 +101,9 @@ pub struct Scenario {
     /// the datagram with the spoofed source address (net.spoof_after_us) carries probing frames only
     #[serde(default)]
     pub spoof_probe: bool,
+    /// C14: the handshake runs over the null TLS sessions and one side's transport-parameter block is rewritten
+    #[serde(default)]
+    pub tp_tamper: Option<crate::tamper::Tamper>,
 }
 
 #[derive(Clone, Debug, Serialize, Deserialize)]
